@@ -118,8 +118,8 @@ func runInc(p *plan.Plan, inc *plan.Incarnation) {
 	}
 	simrt.Init(simrt.Config{
 		On: k.Sched, Choices: inc.Choices, Seed: inc.SchedSeed, PreemptPermille: k.PreemptPermille,
-		DelayPermille: k.DelayPermille, DelayLen: k.DelayLen,
-		Procs: k.Procs, MapSeed: inc.SchedSeed, MaxDecisions: 5_000_000 + advanceSeconds(inc.Ops)*3000,
+		DelayPermille: k.DelayPermille, DelayLen: k.DelayLen, DelaySites: k.DelaySites,
+		Procs: k.Procs, MapSeed: inc.SchedSeed, MaxDecisions: maxDecisions(&k, inc.Ops),
 	})
 	world.Reinit()
 	simrt.Run(func() {
@@ -166,6 +166,7 @@ func finish() {
 		"sched":       simrt.Stats(),
 		"fingerprint": fmt.Sprintf("%016x", simrt.Fingerprint()),
 		"escapes":     simfs.Escapes(),
+		"error_logs":  world.ErrorLogCounts(),
 	}
 	if tr := simfs.Trace(); len(tr) > 0 {
 		end["fs_trace"] = tr
@@ -296,4 +297,11 @@ func advanceSeconds(ops []plan.Op) uint64 {
 		}
 	}
 	return n
+}
+
+func maxDecisions(k *plan.Knobs, ops []plan.Op) uint64 {
+	if k.MaxDecisions > 0 {
+		return uint64(k.MaxDecisions) + advanceSeconds(ops)*3000
+	}
+	return 5_000_000 + advanceSeconds(ops)*3000
 }
